@@ -154,7 +154,11 @@ class Spec:
         if isinstance(node, dict):
             name, body, times = split_times(node)
             if times is not None:
-                raise SpecError("times on an operand-level node is not given a meaning by the properties")
+                if name != "$not":
+                    raise SpecError("times on an operand-level node other than $not is not given a meaning by the properties")
+                # a repeated operand-level $not: that many consecutive operands, each of which the argument does not match
+                one = self.opl({name: body}, C)
+                return z3.Loop(one, times[0], times[1]) if times[1] > 0 else rx.EPS
             if name == "$or":
                 return union(self.opl(x, C) for x in body)
             if name == "$and":
